@@ -93,6 +93,14 @@ def stepLine (s : Sys) (line : String) : Sys × String :=
     let (_, s') := (timeoutConnAsync { async := true } c.toNat!).run s
     (s', renderOut s' ++ (if !s'.clocks.isEmpty then " F:unused_clock_readings" else ""))
   | ["gc", c] => let (_, s') := (gcConn c.toNat!).run s; (s', "ok")
+  | "lockcheck" :: evs =>
+    match Lockset.parseToks 0 evs with
+    | .error i => (s, s!"L bad {i} parse-error")
+    | .ok tr =>
+      let verdict := Lockset.checkTrace tr
+      if verdict.startsWith "ok" then
+        (s, "L " ++ verdict ++ " | " ++ " ".intercalate ((Lockset.cmdOrder tr).map toString))
+      else (s, "L " ++ verdict)
   | ["glob", p, subj] =>
     match unhexTok p, unhexTok subj with
     | some p, some subj => (s, s!"G {Glob.globMatch p subj} {Glob.rglob p subj}")
